@@ -18,6 +18,7 @@ type zzLife struct {
 	swallowEx                 bool
 	closeInRead               error // when non-nil, the 2nd read delivery closes the channel from inside the handler
 	closeInActive             error
+	panicInInactive           bool
 	data                      []byte
 }
 
@@ -64,6 +65,9 @@ func (p *zzLife) HandleException(ctx ExceptionContext, ex Exception) {
 func (p *zzLife) HandleInactive(ctx InactiveContext, ex Exception) {
 	p.inactives++
 	p.inactiveEx = ex
+	if p.panicInInactive {
+		panic("zz: inactive handler failure")
+	}
 	ctx.HandleInactive(ex)
 }
 
@@ -96,6 +100,8 @@ func ZZ_C05_Lifecycle(q, closers, handlerClose, nreads, rkind, swallow int) {
 		probe.closeInRead = zzErrH
 	case 2:
 		probe.closeInActive = zzErrH
+	case 3:
+		probe.panicInInactive = true // a failing inactive handler must not keep the channel half-closed
 	}
 	pl := NewPipeline()
 	pl.AddLast(probe)
@@ -119,7 +125,7 @@ func ZZ_C05_Lifecycle(q, closers, handlerClose, nreads, rkind, swallow int) {
 		})
 	}
 	dead := vrt.Quiesce()
-	closedSomehow := closers > 0 || handlerClose != 0 || (rkind != 0 && swallow == 0) || rkind == 3
+	closedSomehow := closers > 0 || (handlerClose != 0 && handlerClose != 3) || (rkind != 0 && swallow == 0) || rkind == 3
 	if rkind == 2 && swallow != 0 && closers == 0 && handlerClose == 0 {
 		// timeouts that a handler swallows leave the channel open and the read loop spinning on the failing read:
 		// bounded by the harness budget; not reachable here because the probe consumes the budget first
